@@ -255,7 +255,11 @@ func (ch *Chain) Exec(e M) Outcome {
 	b := func() uint64 { return uint64(absx.Int(e["b"])) }
 	deliver := func(msg sdk.Msg) Result { return Deliver(f, ch.Ctx, msg) }
 	fail := func(r Result) Outcome { return Outcome{OK: false, Err: r.ErrString()} }
-	updResp := func(idx, l2bn uint64) M { return M{"idx": int64(idx), "l2bn": int64(l2bn)} }
+	var lastEvents []abci.Event
+	deliver = func(msg sdk.Msg) Result { r := Deliver(f, ch.Ctx, msg); lastEvents = r.Events; return r }
+	updEvent := map[string]string{"UpdateProposer": ophosttypes.EventTypeUpdateProposer, "UpdateChallenger": ophosttypes.EventTypeUpdateChallenger,
+		"UpdateBatchInfo": ophosttypes.EventTypeUpdateBatchInfo, "UpdateMetadata": ophosttypes.EventTypeUpdateMetadata}
+	updResp := func(idx, l2bn uint64) M { return M{"idx": int64(idx), "l2bn": int64(l2bn), "evt": ch.eventRec(lastEvents, updEvent[ty])} }
 
 	switch ty {
 	case "CreateBridge":
@@ -263,7 +267,7 @@ func (ch *Chain) Exec(e M) Outcome {
 		if !r.OK {
 			return fail(r)
 		}
-		return Outcome{OK: true, Resp: M{"bridge": int64(r.Resp.(*ophosttypes.MsgCreateBridgeResponse).BridgeId)}}
+		return Outcome{OK: true, Resp: M{"bridge": int64(r.Resp.(*ophosttypes.MsgCreateBridgeResponse).BridgeId), "evt": ch.eventRec(r.Events, ophosttypes.EventTypeCreateBridge)}}
 	case "ProposeOutput":
 		if tr, ok := e["tree"]; ok { // the proposer's tree travels with the event when it is not one of the run's fixed tables
 			tm := absx.Map(tr)
@@ -282,14 +286,14 @@ func (ch *Chain) Exec(e M) Outcome {
 			return fail(r)
 		}
 		v, _ := attr(r.Events, ophosttypes.EventTypeProposeOutput, ophosttypes.AttributeKeyOutputIndex)
-		return Outcome{OK: true, Resp: M{"idx": atoi(v)}}
+		return Outcome{OK: true, Resp: M{"idx": atoi(v), "evt": ch.eventRec(r.Events, ophosttypes.EventTypeProposeOutput)}}
 	case "DeleteOutput":
 		r := deliver(&ophosttypes.MsgDeleteOutput{Challenger: signer, BridgeId: b(), OutputIndex: uint64(absx.Int(e["idx"]))})
 		if !r.OK {
 			return fail(r)
 		}
 		v, _ := attr(r.Events, ophosttypes.EventTypeDeleteOutput, ophosttypes.AttributeKeyOutputIndex)
-		return Outcome{OK: true, Resp: M{"idx": atoi(v)}}
+		return Outcome{OK: true, Resp: M{"idx": atoi(v), "evt": ch.eventRec(r.Events, ophosttypes.EventTypeDeleteOutput)}}
 	case "InitiateTokenDeposit":
 		data := c.Data(absx.Str(e["data"]))
 		r := deliver(&ophosttypes.MsgInitiateTokenDeposit{Sender: signer, BridgeId: b(), To: c.Addr(absx.Str(e["to"])),
@@ -343,7 +347,7 @@ func (ch *Chain) Exec(e M) Outcome {
 			return fail(r)
 		}
 		v, _ := attr(r.Events, ophosttypes.EventTypeUpdateOracle, ophosttypes.AttributeKeyOracleEnabled)
-		return Outcome{OK: true, Resp: M{"flag": v == "true"}}
+		return Outcome{OK: true, Resp: M{"flag": v == "true", "evt": ch.eventRec(r.Events, ophosttypes.EventTypeUpdateOracle)}}
 	case "UpdateMetadata":
 		r := deliver(&ophosttypes.MsgUpdateMetadata{Authority: signer, BridgeId: b(), Metadata: c.Meta(absx.Map(e["meta"]))})
 		if !r.OK {
@@ -419,6 +423,56 @@ func (ch *Chain) Exec(e M) Outcome {
 		return Outcome{OK: true, Resp: M{"same": same}}
 	}
 	panic("unknown event type " + ty)
+}
+
+// eventRec renders the single event of type ty as a record of abstract values (attribute keys shortened, addresses /
+// denoms / roots mapped back to their names); {"count": n} when the event is not emitted exactly once.
+func (ch *Chain) eventRec(evs []abci.Event, ty string) M {
+	c := ch.C
+	var found []abci.Event
+	for _, e := range evs {
+		if e.Type == ty {
+			found = append(found, e)
+		}
+	}
+	if len(found) != 1 {
+		return M{"count": int64(len(found))}
+	}
+	short := map[string]string{ophosttypes.AttributeKeyBridgeId: "bridge", ophosttypes.AttributeKeyOutputIndex: "idx", ophosttypes.AttributeKeyL2BlockNumber: "l2bn",
+		ophosttypes.AttributeKeyOutputRoot: "root", ophosttypes.AttributeKeyProposer: "proposer", ophosttypes.AttributeKeyChallenger: "challenger", ophosttypes.AttributeKeyCreator: "creator",
+		ophosttypes.AttributeKeyBatchChainType: "bchain", ophosttypes.AttributeKeyBatchSubmitter: "bsub", ophosttypes.AttributeKeyOracleEnabled: "oracle",
+		ophosttypes.AttributeKeyFinalizedOutputIndex: "fidx", ophosttypes.AttributeKeyFinalizedL2BlockNumber: "fl2bn", ophosttypes.AttributeKeySubmitter: "submitter"}
+	out := M{}
+	for _, a := range found[0].Attributes {
+		k, ok := short[a.Key]
+		if !ok {
+			if a.Key == "msg_index" {
+				continue
+			}
+			out["?"+a.Key] = a.Value
+			continue
+		}
+		switch k {
+		case "bridge", "idx", "l2bn", "fidx", "fl2bn":
+			out[k] = atoi(a.Value)
+		case "proposer", "challenger", "creator", "submitter":
+			out[k] = c.AddrName(a.Value)
+		case "bsub":
+			out[k] = c.submitterName(a.Value)
+		case "oracle":
+			out[k] = a.Value == "true"
+		case "root":
+			bz, err := hex.DecodeString(a.Value)
+			if err != nil {
+				out[k] = "?" + a.Value
+			} else {
+				out[k] = c.RootName(bz)
+			}
+		default:
+			out[k] = a.Value
+		}
+	}
+	return out
 }
 
 func (ch *Chain) depositEvent(evs []abci.Event) M {
